@@ -286,7 +286,7 @@ def q19w(fi: int, ci: int) -> str:
 
 
 # ---------------------------------------------------------------- find_workflow + cli.main: same project from every start directory
-def _q19f(depth, use_f, unrelated):
+def _q19f(depth, use_f, unrelated, linked):
     """Project at /vfs/proj with workflow.py; gwf invoked from /vfs/proj/<d1>/.../<d_depth> (depth
     symbolic 0..3) or, with -f <absolute path>, from an unrelated directory."""
     if not q.in_range(depth, 4):
@@ -294,7 +294,13 @@ def _q19f(depth, use_f, unrelated):
     if unrelated and not use_f:
         return q.SKIP
     w = vfs.VFS()
-    w.add("/vfs/proj/workflow.py", 1, "# workflow")
+    if linked:
+        # the project's workflow.py is a symbolic link to a workflow shared by several projects: the project is where the link is
+        w.add("/vfs/shared/flows/workflow.py", 1, "# workflow")
+        w.links["/vfs/proj/workflow.py"] = "/vfs/shared/flows/workflow.py"
+        w.dirs.add("/vfs/proj")
+    else:
+        w.add("/vfs/proj/workflow.py", 1, "# workflow")
     start = "/vfs/proj"
     for i in range(depth):
         start = start + "/d%d" % i
@@ -326,7 +332,7 @@ def _q19f(depth, use_f, unrelated):
             return "invoked from %s: state directory %r (created dirs %s)" % (start, c.config_dir, sorted(w.dirs))
         if os.path.normpath(str(c.config.path)) != "/vfs/proj/.gwfconf.json":
             return "config file at %r" % (c.config.path,)
-        extra = [d for d in w.dirs if d.endswith(".gwf") and d != "/vfs/proj/.gwf"]
+        extra = [d for d in w.dirs if d.endswith(".gwf") and d != "/vfs/proj/.gwf"] + [f for f in w.files if f.endswith(".gwfconf.json") and f != "/vfs/proj/.gwfconf.json"]
         if extra:
             return "a second state directory was created: %s" % extra
         return ""
@@ -339,11 +345,11 @@ def _q19f(depth, use_f, unrelated):
         vfs.uninstall()
 
 
-def q19f(depth: int, use_f: bool, unrelated: bool) -> str:
+def q19f(depth: int, use_f: bool, unrelated: bool, linked: bool) -> str:
     """
     post: _ == ""
     """
-    return q.run(_q19f, (depth, use_f, unrelated))
+    return q.run(_q19f, (depth, use_f, unrelated, linked))
 
 
 # ---------------------------------------------------------------- map: one target per item, deterministic distinct valid names
@@ -420,6 +426,6 @@ QUERIES = [
      "bound": "every pair of invoking directories from %s x creation modes %s x template working_dir in %s" % (CWDS, MODES, [t[0] for t in TEMPLATE_WD])},
     {"name": "Q19w", "fn": q19w, "shards": [{}], "timeout": 300,
      "bound": "workflow file named one of %s, loaded with the real load_workflow from the project directory / a nested sub-directory / an unrelated directory (real temporary files)" % (WF_FILES,)},
-    {"name": "Q19f", "fn": q19f, "shards": [{}], "timeout": 400, "bound": "invoking directory = project root or nested 1..3 levels (symbolic depth), or unrelated directory with -f <absolute path>"},
+    {"name": "Q19f", "fn": q19f, "shards": [{}], "timeout": 400, "bound": "invoking directory = project root or nested 1..3 levels (symbolic depth), or unrelated directory with -f <absolute path>; workflow.py a file or a symbolic link to a shared workflow elsewhere; a stale PWD in the environment"},
     {"name": "Q19m", "fn": q19m, "shards": [{"iter": k} for k in range(len(ITERS))], "timeout": 400, "bound": "0..4 map items (symbolic count) given as list / tuple / generator / iterator / zip-generator / dict keys (one per shard), 3 naming modes + a naming function that repeats a name (must be rejected), with/without a pre-existing target of the first generated name, evaluated twice"},
 ]
